@@ -156,6 +156,11 @@ def run(tier):
     for fi, freq in enumerate(FREQS if tier != "quick" else FREQS[:1]):
         _one_frequency(chk, N, freq, fi)
     _d_truncation_counts(chk)
+    _b_series_weights(chk)
+    # the generating functions handed out for a transform are the ones that transform produced (C18.b slot rule, re-filed)
+    from . import c18
+    from .common import Relabel
+    c18.generating_function_slots(Relabel(chk, {"C18.b": "C08.d"}))
     return chk
 
 
@@ -285,6 +290,71 @@ def _one_frequency(chk, N, freq, fi, kinds=("partial", "full")):
         want = sp.Poly.from_dict(keep, *got.gens, domain=got.domain) if keep else sp.Poly(0, *got.gens, domain=got.domain)
         ok = ok and (got - want).is_zero
     chk.check(ok, "C08.c", f"{CL}::_zero_q1p1", "restriction to the centre manifold does not zero exactly the monomials containing q1 or p1", sample="keep iff k_q1 = k_p1 = 0")
+
+
+def _b_series_weights(chk):
+    """exp(L_G) H = sum_k (1/k!) ad_G^k H: the k-th iterated bracket enters with weight 1/k! and is the bracket of the
+    previous (unweighted) iterate with the single-degree generator.  _apply_poly_transform is interpreted with formal
+    one-coefficient blocks and the Poisson bracket replaced by a tagging stub, for a truncation degree high enough that
+    four iterated brackets contribute (at the degree the coefficient-level check runs, 1/k and 1/k! coincide for k <= 2)."""
+    NMAX, DEG = 7, 3
+    H = [to_obj_array([sp.Symbol(f"h{d}")]) for d in range(NMAX + 1)]
+    G = to_obj_array([sp.Symbol("g3")])
+    calls = []
+
+    def bracket(ip_, a, k):
+        kk = len(calls) + 1
+        calls.append(([list(to_obj_array(x)) for x in a[0]], [list(to_obj_array(x)) for x in a[1]], a[2]))
+        return [to_obj_array([sp.Symbol(f"B{kk}_{d}")]) for d in range(NMAX + 1)]
+
+    ov = {"_polynomial_poisson_bracket": bracket, "_polynomial_clean": lambda ip_, a, k: a[0], "_make_poly": lambda ip_, a, k: to_obj_array([sp.Integer(0)]),
+          "_polynomial_zero_list": lambda ip_, a, k: [to_obj_array([sp.Integer(0)]) for _ in range(int(S(a[0])) + 1)]}
+    ip = Interp(overrides=ov, max_depth=20)
+    out = ip.call_function(LIE, "_apply_poly_transform", [[x.copy() for x in H], G.copy(), DEG, NMAX, sp.Symbol("psi"), sp.Symbol("clmo"), sp.Symbol("enc"), sp.Integer(-1)])
+    chk.count("functions partially evaluated")
+    K = len(calls)
+    bad = []
+    for d in range(NMAX + 1):
+        got = sp.expand(S(to_obj_array(out[d])[0]))
+        want = H[d][0] + sum(sp.Rational(1, sp.factorial(k)) * sp.Symbol(f"B{k}_{d}") for k in range(1, K + 1))
+        if sp.expand(got - want) != 0:
+            bad.append((d, str(got)[:100]))
+    chk.check(not bad and K >= 4, "C08.b", f"{LIE}::_apply_poly_transform[series weights]",
+              f"the Lie series is not H + sum_k (1/k!) ad_G^k H with k = 1..K (K = {K}): degree blocks {bad[:2]}",
+              sample=f"N_max={NMAX}, deg G={DEG}: result = H + sum_(k=1..{K}) B_k / k!")
+    # each bracket is taken of the previous unweighted iterate with the generator placed at its own degree
+    chain_ok = bool(calls) and calls[0][0] == [list(x) for x in H] and all(calls[k][0] == [[sp.Symbol(f"B{k}_{d}")] for d in range(NMAX + 1)] for k in range(1, K))
+    gen_ok = all(c[1][DEG] == [sp.Symbol("g3")] and all(c[1][d] == [0] for d in range(NMAX + 1) if d != DEG) and c[2] == NMAX for c in calls)
+    chk.check(chain_ok and gen_ok, "C08.b", f"{LIE}::_apply_poly_transform[iteration]",
+              "the k-th term is not the bracket of the (k-1)-th unweighted iterate with the generator at its own degree, truncated at N_max",
+              sample="B_k = {B_(k-1), G_n}, B_0 = H")
+    # the coordinate series uses the same exponential
+    Xp = [to_obj_array([sp.Symbol(f"x{d}")]) for d in range(2)]
+    Gl = [to_obj_array([sp.Symbol("g3") if d == 3 else sp.Integer(0)]) for d in range(NMAX + 1)]
+    calls2 = []
+
+    def bracket2(ip_, a, k):
+        kk = len(calls2) + 1
+        calls2.append(([list(to_obj_array(x)) for x in a[0]], a[1], a[2]))
+        return [to_obj_array([sp.Symbol(f"C{kk}_{d}")]) for d in range(NMAX + 1)]
+
+    ov2 = dict(ov)
+    ov2["_polynomial_poisson_bracket"] = bracket2
+    ov2["_polynomial_total_degree"] = lambda ip_, a, k: 3
+    ip2 = Interp(overrides=ov2, max_depth=20)
+    out2 = ip2.call_function(CL, "_apply_coord_transform", [[x.copy() for x in Xp], Gl, NMAX, sp.Symbol("psi"), sp.Symbol("clmo"), sp.Symbol("enc"), sp.Integer(-1)])
+    chk.count("functions partially evaluated")
+    K2 = len(calls2)
+    bad2 = []
+    for d in range(NMAX + 1):
+        got = sp.expand(S(to_obj_array(out2[d])[0]))
+        want = (Xp[d][0] if d < 2 else 0) + sum(sp.Rational(1, sp.factorial(k)) * sp.Symbol(f"C{k}_{d}") for k in range(1, K2 + 1))
+        if sp.expand(got - want) != 0:
+            bad2.append((d, str(got)[:100]))
+    chain2 = bool(calls2) and calls2[0][0] == [list(x) for x in Xp] and all(calls2[k][0] == [[sp.Symbol(f"C{k}_{d}")] for d in range(NMAX + 1)] for k in range(1, K2)) \
+        and all(c[1] is Gl and c[2] == NMAX for c in calls2)
+    chk.check(not bad2 and K2 >= 4 and chain2, "C08.c", f"{CL}::_apply_coord_transform[series weights]",
+              f"the coordinate series is not X + sum_k (1/k!) ad_G^k X (K = {K2}): {bad2[:2]}", sample=f"X + sum_(k=1..{K2}) C_k / k!")
 
 
 PIPE = "hiten.algorithms.hamiltonian.pipeline"
